@@ -270,4 +270,51 @@ PROPS["C14"] = {
     "level_note": "Trusted: Lean kernel, Spec/Negotiate.lean, harness; the response header as written by ws.Upgrader is exercised under C09/C11.",
 }
 
+PROPS["C09"] = {
+    "lean": ["WsVerif.Props.C09", "WsVerif.Bridge.C09"],
+    "rule": "Requests over a grammar through BOTH ws.Upgrader.Upgrade (over a chunked reader, chunk sizes 0/1/7/16/33, buffer sizes "
+            "1/16/17/64/default) and ws.HTTPUpgrader.Upgrade (net/http's ReadRequest + a hijackable ResponseWriter): LF and CRLF, header "
+            "names canonical/lower/upper; 6 methods; 25 version forms (1.0, 1.2, 1.10, 2.0, 0.9, '1.;', '1.:', ':.1', leading zeros, numbers "
+            "beyond 2^64, missing parts); each of the 5 mandatory headers absent / 4-12 value variants (case, blanks and tabs, token lists with "
+            "the token first/middle/last, quoted, wrong, empty, 23/25/48-character keys) / duplicated good-bad and bad-good; malformed header "
+            "lines; reordering; subprotocol selector configurations x 13 header values (+ two header lines); wsflate negotiation and the "
+            "deprecated selector x 14 extension header values; all 64 combinations of OnRequest/OnHost/OnHeader/OnBeforeUpgrade rejecting "
+            "(custom status + headers, plain error, empty reason) or adding headers and the Header option; long lines against small buffers; "
+            "random sampling of the same grammar (300 quick / 20000 thorough).",
+    "exhaustive_families": ["callback combinations (thorough: all 64)"],
+    "trusted_base": [
+        "Spec/Sha1.lean: SHA-1 (FIPS 180-4) and base64 (RFC 4648) written from the standards, checked against the RFC 6455 §1.3 vector; "
+        "crypto/sha1 and encoding/base64 (Go stdlib) are compared with it on every successful case, not verified",
+        "Model/HttpHead.lean: the dependency github.com/gobwas/httphead v0.1.0 (lexer, ScanTokens, ScanOptions, WriteOptions) is MODELLED, "
+        "quirks included, and compared byte-for-byte through every case",
+        "Model/Http.lean, Model/Upgrader.lean mirror util.go, http.go, server.go by hand; tied by exact correspondence (error identity, "
+        "returned Handshake, every byte written, bytes consumed from the transport) and by Bridge.C09: header names, the ten built-in error "
+        "values (status, text, header), the 101 head, the GUID, the headerSeen bits and the source-order list of every condition in "
+        "Upgrader.Upgrade, HTTPUpgrader.Upgrade, asciiToInt, httpParseVersion and httpWriteResponseError are regenerated from the source",
+        "net/http's request parser in front of HTTPUpgrader is the real one in the harness; the model receives what it parsed",
+        "bufio.Reader (stdlib) is modelled as far as readLine uses it (ReadSlice/fill/ErrBufferFull)",
+        "the independent oracle (Driver/C09.lean: judgeUpgrade) re-parses the raw request with its own line splitter and decides "
+        "soundness/completeness, accept value, subprotocol order, extension origin and the error response shape without the model",
+    ],
+    "assumptions": COMMON_ASSUME + [
+        "a Sec-WebSocket-Key is judged by its length (24) only: a 24-character value that is not base64 is accepted by the code (N: "
+        "observation F12, left open by the oracle as the statement's parenthesis makes length the stated criterion)",
+        "left open by the oracle: empty Host value, leading zeros / numbers beyond int in the HTTP version, header lists that are not "
+        "plain comma-separated tokens (completeness is demanded only for the strict reading, soundness uses the lenient one)",
+        "callbacks are data (what they reject and with which status/reason/headers)",
+    ],
+    "level_text": "Kernel-checked for EVERY request and configuration (model of server.go): success of Upgrader.Upgrade implies GET, "
+                  "HTTP/1.x with x>=1, no objecting callback, all five mandatory headers seen and every occurrence acceptable - a key that is "
+                  "not 24 bytes long is always refused - and the bytes written are exactly the 101 response whose accept value is "
+                  "base64(SHA-1(last key ++ GUID)); every head whose parsed lines are acceptable reaches the 101 writer (completeness of the "
+                  "decision; the bytes-to-lines step is C11's readLine theorem: PARTIAL); on failure nothing or exactly the error response "
+                  "is written and never the 101 writer, built-in errors carry 400/405/505/426 (+ Sec-WebSocket-Version: 13) and the body is "
+                  "announced with its exact length; the selected subprotocol is accepted by the selector and every token before it was not; "
+                  "returned extensions are answers to parsed offers; the same soundness and (selector-free) completeness for "
+                  "HTTPUpgrader.Upgrade. The unchanged tree violated the property: F3 (asciiToInt let 0x3A-0x3F and overflow through: "
+                  "'HTTP/1.;', 'HTTP/18446744073709551617.1' were upgraded) and F14 (HTTPUpgrader upgraded HTTP/2.0) - found by the oracle, "
+                  "repaired by fix commits 42f051b and d6623bf.",
+    "level_note": "Trusted: Lean kernel, Spec/Sha1.lean, the httphead and bufio models, harness. Chunk/buffer independence is C11.",
+}
+
 NOT_APPLICABLE = {}
